@@ -1,33 +1,11 @@
 (* C12_Proofs.v — lemmas and proofs for the C12 properties. *)
 From Coq Require Import ZArith List Bool Lia.
-From PV Require Import Base.U64 C12.C12_Model C12.C12_Mem.
+From PV Require Import Base.U64 C12.C12_Model C12.C12_Mem C12.C12_MemC C12.C12_Iov.
 Import ListNotations.
 Local Open Scope Z_scope.
 
 Definition cfg_shipped : cfg := mkCfg false false false false false.
 Definition mem_wf (m : mem) : Prop := Forall (fun L => L <= STRIDE) (lens m).
-
-Lemma nth_z_In {A} (l : list A) i x : nth_z l i = Some x -> In x l.
-Proof. unfold nth_z. destruct ((i <? 0) || (len l <=? i)); [discriminate|]. apply nth_error_In. Qed.
-
-(* a valid range lies inside one region of a well-formed memory *)
-Lemma validb_fits ls a n : Forall (fun L => L <= STRIDE) ls -> validb ls a n = true -> 0 < n ->
-  ARENA <= a /\ (a - ARENA) mod STRIDE + n <= STRIDE.
-Proof.
-  unfold validb. intros Hwf H Hn. destruct (n <=? 0) eqn:E; [apply Z.leb_le in E; lia|].
-  destruct (a <? ARENA) eqn:HA; [discriminate|]. apply Z.ltb_ge in HA.
-  destruct (nth_z ls ((a - ARENA) / STRIDE)) as [L|] eqn:HL; [|discriminate].
-  apply Z.leb_le in H. apply nth_z_In in HL. rewrite Forall_forall in Hwf. specialize (Hwf _ HL). lia.
-Qed.
-
-Lemma validb_sub' ls a n a' n' : Forall (fun L => L <= STRIDE) ls -> validb ls a n = true ->
-  a <= a' -> a' + n' <= a + n -> validb ls a' n' = true.
-Proof.
-  intros Hwf H Ha Hb. destruct (Z_le_gt_dec n' 0) as [Hn'|Hn'].
-  - unfold validb. apply Z.leb_le in Hn'. rewrite Hn'. reflexivity.
-  - assert (0 < n) by lia. destruct (validb_fits _ _ _ Hwf H ltac:(lia)) as [_ Hs].
-    eapply validb_sub; eauto; lia.
-Qed.
 
 (* ------------------------------------------------------------------------------
    slice::anchor and string::sv (repaired code)
@@ -72,40 +50,6 @@ Proof. reflexivity. Qed.
 (* ------------------------------------------------------------------------------
    sorted_map::find never reads outside the index array and the base buffer
    ------------------------------------------------------------------------------ *)
-
-Definition bytes_ok (bs : list byte) : Prop := Forall (fun b => 0 <= b < 256) bs.
-Definition mem_bytes (m : mem) : Prop := Forall bytes_ok m.
-
-Lemma le_dec_range bs : bytes_ok bs -> 0 <= le_dec bs < 256 ^ len bs.
-Proof.
-  induction bs as [|b r IH]; intros H.
-  - cbn. lia.
-  - inversion H; subst. specialize (IH H3). cbn [le_dec]. rewrite len_cons.
-    rewrite Z.pow_add_r by (pose proof (len_nonneg r); lia). change (256 ^ 1) with 256. lia.
-Qed.
-
-Lemma bytes_ok_firstn n bs : bytes_ok bs -> bytes_ok (firstn n bs).
-Proof. unfold bytes_ok. intros H. rewrite <- (firstn_skipn n bs) in H. apply Forall_app in H. tauto. Qed.
-Lemma bytes_ok_skipn n bs : bytes_ok bs -> bytes_ok (skipn n bs).
-Proof. unfold bytes_ok. intros H. rewrite <- (firstn_skipn n bs) in H. apply Forall_app in H. tauto. Qed.
-
-Lemma load_bytes_ok m a n bs : mem_bytes m -> load m a n = Ok bs -> bytes_ok bs.
-Proof.
-  unfold load. intros Hm. destruct (n <=? 0); [intros H; inversion H; constructor|].
-  destruct (a <? ARENA); [discriminate|].
-  destruct (nth_z m ((a - ARENA) / STRIDE)) as [r|] eqn:Hr; [|discriminate].
-  destruct ((a - ARENA) mod STRIDE + n <=? len r); [|discriminate].
-  intros H. inversion H. apply bytes_ok_firstn, bytes_ok_skipn.
-  apply nth_z_In in Hr. unfold mem_bytes in Hm. rewrite Forall_forall in Hm. auto.
-Qed.
-
-Lemma load64_ok m a : mem_bytes m -> validb (lens m) a 8 = true -> exists v, load64 m a = Ok v /\ 0 <= v < W64.
-Proof.
-  intros Hm H. destruct (load_valid _ _ _ H) as [bs Hbs]. unfold load64. rewrite Hbs. cbn [bind].
-  eexists. split; [reflexivity|].
-  pose proof (le_dec_range bs (load_bytes_ok _ _ _ _ Hm Hbs)) as R.
-  rewrite (load_len _ _ _ _ Hbs) in R. exact R.
-Qed.
 
 (* one comparison of lower_bound: the index entry at e and the base buffer are readable => no trap *)
 Lemma entry_lt_key_ok m e bp bn k :
@@ -275,23 +219,9 @@ Proof.
   rewrite H in B; [discriminate|exact A|reflexivity|discriminate].
 Qed.
 
-(* ------------------------------------------------------------------------------
-   Full-strength statements not proved yet (kept as Props; see notes/C12.md)
-   ------------------------------------------------------------------------------ *)
-Definition els_valid (m : mem) (el : list (Z * Z)) : Prop :=
-  Forall (fun e => 0 <= snd e /\ validb (lens m) (fst e) (snd e) = true) el.
-(* deser_in_bounds: for every byte memory, every iovec list whose elements denote readable
-   memory, every shape: deserialization never accesses memory out of range (no Err), and
-   walking every field of an accepted message (reading every byte) does not either.
-   (needs additionally: shape well-formedness = every slot inside its enclosing struct) *)
-Definition deser_in_bounds (shape_wf : shape -> Prop) : Prop :=
-  forall hstep sh m v, shape_wf sh -> mem_bytes m -> mem_wf m -> els_valid m (i_el v) ->
-    sum_el (i_el v) <= INT_MAX -> len m + i_cap v <= 65536 -> 0 <= i_nb v ->
-    exists t st, deserialize hstep cfg_final sh m v = Ok (t, st) /\
-      (t <> 0 -> exists its, w_fields cfg_final (sh_fields sh) (d_mem st) t = Ok its).
-(* ser_roundtrip: serialize a value laid out in sender memory, copy the emitted iovecs into
-   ANY fragmentation of the same flat byte string, deserialize: the walk of the result equals
-   the walk of the original (contents of every field), up to pointer values. *)
+(* deser_in_bounds is proved in C12_Deser.v (deserialize_no_trap: every shape, every memory, every
+   fragmentation) and C12_Walk.v (deserialize_fields_in_bounds_partial: final state of every slot and
+   the walk, for shapes without iovec arrays / arrays of messages).  ser_roundtrip: see notes/C12.md. *)
 
 (* positive part of the checksum clause (hash uninterpreted): whenever the value recomputed
    over the remaining iovec bytes and the body differs from the stored word, the message is
